@@ -374,6 +374,24 @@ func (e *Engine) exec1(step int, cmd *Cmd, twin bool) {
 
 	// ---- commands that only make sense relative to earlier ones
 	switch cmd.Op {
+	case "Native":
+		// registering a Go matcher, or switching the native interpreter on, changes
+		// what the filter of an open walk on this client means from the next page
+		// on: such a walk is no longer one read, and is abandoned
+		ids := make([]int, 0, len(e.walks))
+		for id := range e.walks {
+			ids = append(ids, id)
+		}
+		sort.Ints(ids)
+		for _, id := range ids {
+			ws := e.walks[id]
+			if ws.done || ws.open.C != cmd.C || ws.open.Filter == nil {
+				continue
+			}
+			if cmd.Native == "activate" || (cmd.T == ws.open.T && FilterText(cmd) == FilterText(ws.open)) {
+				ws.done = true
+			}
+		}
 	case "Poke":
 		desc := e.Drv[cmd.C].Poke(cmd.Ref, cmd.Dir, cmd.Slot)
 		if desc == "" {
@@ -450,9 +468,13 @@ func (e *Engine) exec1(step int, cmd *Cmd, twin bool) {
 	if len(cmd.NeedHas) > 0 {
 		// functions over a collection stay inside the fragment only while the
 		// target item has it (as above)
-		ok := mt != nil && keyProblem(mt.Def.KeyAttrs(), cmd.Key, false) == ""
+		k := cmd.Key
+		if cmd.Op == "Put" {
+			k = cmd.Item
+		}
+		ok := mt != nil && keyProblem(mt.Def.KeyAttrs(), k, false) == ""
 		if ok {
-			cur := mt.Items[KeyID(mt.Def, cmd.Key)]
+			cur := mt.Items[KeyID(mt.Def, k)]
 			for a, typ := range cmd.NeedHas {
 				v, has := cur[a]
 				want, elem, _ := strings.Cut(typ, ":")
@@ -540,6 +562,23 @@ func (e *Engine) exec1(step int, cmd *Cmd, twin bool) {
 	}
 	st.Fails = fails
 	e.addFails(step, cmd, fails)
+	if e.stop && got.Failed() && len(e.res.Fails) == 0 && len(fails) > 0 && e.M.Clients[cmd.C].Fail == "none" && dataOp(cmd.Op) {
+		// the call failed where the model expected success (another property's
+		// rule, which ends the run): whatever the reason, a call that returned
+		// an error must have left no trace (C08)
+		prev := e.observeAll()
+		var trace []Fail
+		for c := range e.Drv {
+			if e.M.Clients[c].Fail != "none" || prev[c] == "" || e.last[c] == nil {
+				continue
+			}
+			if prev[c] != e.lastSig[c] {
+				trace = append(trace, Fail{"C08.trace", fmt.Sprintf("%s failed (%s) but the observable state of client %d changed: %s", cmd.Op, got.Class, c, DiffSignatures(prev[c], e.lastSig[c]))})
+			}
+		}
+		st.Fails = append(st.Fails, trace...)
+		e.addFails(step, cmd, trace)
+	}
 	if e.stop {
 		return
 	}
@@ -561,6 +600,16 @@ func (e *Engine) exec1(step int, cmd *Cmd, twin bool) {
 		return
 	}
 	e.afterStep(step, cmd, got, ex, &st)
+}
+
+// dataOp: the operations C08 speaks about (the table and index definitions
+// the observer reads through are the same before and after them).
+func dataOp(op string) bool {
+	switch op {
+	case "Put", "Update", "Delete", "Get", "Query", "Scan", "BatchWrite", "BatchGet", "Transact":
+		return true
+	}
+	return false
 }
 
 func mergeWalk(resume, open *Cmd) *Cmd {
